@@ -2485,7 +2485,7 @@ bool SoPlexBase<R>::_boostPrecision()
 
       if(intParam(SoPlexBase<R>::MULTIPRECISION_LIMIT) >= nbDigitsSecondBoost)
       {
-         BP::default_precision((int)nbDigitsSecondBoost);
+         _setBoostedPrecisionDigits((int)nbDigitsSecondBoost);
       }
       else
       {
@@ -2498,12 +2498,12 @@ bool SoPlexBase<R>::_boostPrecision()
    else if(_statistics->precBoosts >= 2)
    {
       // general case: increase the number of decimal digits by 3/2,
-      int newNbDigits = (int)floor(BP::default_precision() * realParam(
+      int newNbDigits = (int)floor(_boostedPrecisionDigits() * realParam(
                                       SoPlexBase<R>::PRECISION_BOOSTING_FACTOR));
 
       if(intParam(SoPlexBase<R>::MULTIPRECISION_LIMIT) >= newNbDigits)
       {
-         BP::default_precision(newNbDigits);
+         _setBoostedPrecisionDigits(newNbDigits);
       }
       else
       {
@@ -2529,7 +2529,7 @@ void SoPlexBase<R>::_resetBoostedPrecision()
 {
    _statistics->precBoosts = 0;
 #ifdef SOPLEX_WITH_MPFR
-   BP::default_precision(50);
+   _setBoostedPrecisionDigits(50);
 #endif
 }
 
@@ -2782,7 +2782,7 @@ void SoPlexBase<R>::_solveRealForRationalBoostedStable(
    // start rational solving timing
    _statistics->rationalTime->start();
 
-   SPX_MSG_INFO1(spxout, spxout << "Current precision = 1e-" << BP::default_precision() << ", ");
+   SPX_MSG_INFO1(spxout, spxout << "Current precision = 1e-" << _boostedPrecisionDigits() << ", ");
 
    primalFeasible = false;
    dualFeasible = false;
@@ -2799,16 +2799,16 @@ void SoPlexBase<R>::_solveRealForRationalBoostedStable(
    _statistics->boostingStepTime->start();
 
    BP tolerance = boost::multiprecision::pow(BP(10),
-                  -(int)(BP::default_precision() * _tolPrecisionRatio));
+                  -(int)(_boostedPrecisionDigits() * _tolPrecisionRatio));
 
    BP epsilonZero   = boost::multiprecision::pow(BP(10),
-                      -(int)(BP::default_precision() * _epsZeroPrecisionRatio));
+                      -(int)(_boostedPrecisionDigits() * _epsZeroPrecisionRatio));
    BP epsilonFactor = boost::multiprecision::pow(BP(10),
-                      -(int)(BP::default_precision() * _epsFactorPrecisionRatio));
+                      -(int)(_boostedPrecisionDigits() * _epsFactorPrecisionRatio));
    BP epsilonUpdate = boost::multiprecision::pow(BP(10),
-                      -(int)(BP::default_precision() * _epsUpdatePrecisionRatio));
+                      -(int)(_boostedPrecisionDigits() * _epsUpdatePrecisionRatio));
    BP epsilonPivot  = boost::multiprecision::pow(BP(10),
-                      -(int)(BP::default_precision() * _epsPivotPrecisionRatio));
+                      -(int)(_boostedPrecisionDigits() * _epsPivotPrecisionRatio));
 
    this->_tolerances->setEpsilon((Real) epsilonZero);
    this->_tolerances->setEpsilonFactorization((Real) epsilonFactor);
@@ -3043,7 +3043,7 @@ void SoPlexBase<R>::_performOptIRStableBoosted(
    // start rational solving timing
    _statistics->rationalTime->start();
 
-   SPX_MSG_INFO1(spxout, spxout << "Current precision = 1e-" << BP::default_precision() << ", ");
+   SPX_MSG_INFO1(spxout, spxout << "Current precision = 1e-" << _boostedPrecisionDigits() << ", ");
 
    typename SPxSolverBase<BP>::Status boostedResult = SPxSolverBase<BP>::UNKNOWN;
 
@@ -3068,16 +3068,16 @@ void SoPlexBase<R>::_performOptIRStableBoosted(
    _statistics->boostingStepTime->start();
 
    BP tolerance = boost::multiprecision::pow(BP(10),
-                  -(int)(BP::default_precision() * _tolPrecisionRatio));
+                  -(int)(_boostedPrecisionDigits() * _tolPrecisionRatio));
 
    BP epsilonZero   = boost::multiprecision::pow(BP(10),
-                      -(int)(BP::default_precision() * _epsZeroPrecisionRatio));
+                      -(int)(_boostedPrecisionDigits() * _epsZeroPrecisionRatio));
    BP epsilonFactor = boost::multiprecision::pow(BP(10),
-                      -(int)(BP::default_precision() * _epsFactorPrecisionRatio));
+                      -(int)(_boostedPrecisionDigits() * _epsFactorPrecisionRatio));
    BP epsilonUpdate = boost::multiprecision::pow(BP(10),
-                      -(int)(BP::default_precision() * _epsUpdatePrecisionRatio));
+                      -(int)(_boostedPrecisionDigits() * _epsUpdatePrecisionRatio));
    BP epsilonPivot  = boost::multiprecision::pow(BP(10),
-                      -(int)(BP::default_precision() * _epsPivotPrecisionRatio));
+                      -(int)(_boostedPrecisionDigits() * _epsPivotPrecisionRatio));
 
    this->_tolerances->setEpsilon((Real) epsilonZero);
    this->_tolerances->setEpsilonFactorization((Real) epsilonFactor);
@@ -5848,7 +5848,7 @@ void SoPlexBase<R>::_solveRealForRationalBoosted(
          // do not remove bounds of boxed variables or sides of ranged rows if bound flipping is used
          bool keepbounds = intParam(SoPlexBase<R>::RATIOTESTER) == SoPlexBase<R>::RATIOTESTER_BOUNDFLIPPING;
          Real remainingTime = _boostedSolver.getMaxTime() - _boostedSolver.time();
-         BP tol = pow(10, -(int)(BP::default_precision() * _tolPrecisionRatio));
+         BP tol = pow(10, -(int)(_boostedPrecisionDigits() * _tolPrecisionRatio));
          simplificationStatus = _boostedSimplifier->simplify(_boostedSolver, remainingTime, keepbounds,
                                 _boostedSolver.random.getSeed());
       }
